@@ -277,8 +277,9 @@ def acquire : S σ Unit := do
   | .ok () =>
     match t with
     | .ok _ => pure ()
-    | .err e => S.fail e
+    | .err e => fun s => (.err e, { s with cardType := none })   -- "start over next time"
     | .panic p => S.lift (.panic p)
+  | .err e => fun s => (.err e, { s with cardType := none })
   | other => S.lift other
 
 /-- `check_init`. -/
